@@ -106,22 +106,37 @@ def patched_sources(diff_path, root="/repo", base=None):
 # invalidate them; what a check reports on the bare snapshot (defects repaired since) is subtracted from what it reports on
 # snapshot + diff: a stored diff is judged by what it ADDS.
 CORPUS_COMMIT = "e42fd5a"
-CORPUS_BASE = os.path.join(os.path.dirname(os.path.dirname(os.path.abspath(__file__))), "bases", CORPUS_COMMIT)
+_BASES = os.path.join(os.path.dirname(os.path.dirname(os.path.abspath(__file__))), "bases")
+CORPUS_BASE = os.path.join(_BASES, CORPUS_COMMIT)
 
 
-def base_sources():
-    """{module: source} of the whole package at the corpus snapshot"""
-    d = os.path.join(CORPUS_BASE, PKG)
+def snapshot_of(path):
+    """the snapshot a stored diff / seeded change was made for: `snapshot` in the seed's meta.json (or in <diff>.json next to a diff
+    file) when that snapshot is kept under bases/, the first corpus snapshot otherwise"""
+    import json
+    meta = os.path.join(path, "meta.json") if os.path.isdir(path) else path + ".json"
+    try:
+        snap = json.load(open(meta)).get("snapshot")
+    except Exception:
+        snap = None
+    return snap if snap and os.path.isdir(os.path.join(_BASES, snap)) else CORPUS_COMMIT
+
+
+def base_sources(snapshot=None):
+    """{module: source} of the whole package at a corpus snapshot"""
+    d = os.path.join(_BASES, snapshot or CORPUS_COMMIT, PKG)
     return {f[:-3]: open(os.path.join(d, f), encoding="utf-8").read() for f in sorted(os.listdir(d)) if f.endswith(".py")}
 
 
 def stored_sources(path):
-    """sources for a stored diff (file) or a stored seeded change (directory): the corpus snapshot with the diff applied; None if it
+    """sources for a stored diff (file) or a stored seeded change (directory): its corpus snapshot with the diff applied; None if it
     does not apply"""
-    src = seeded_sources(path, CORPUS_BASE) if os.path.isdir(path) else patched_sources(path, CORPUS_BASE)
+    snap = snapshot_of(path)
+    root = os.path.join(_BASES, snap)
+    src = seeded_sources(path, root) if os.path.isdir(path) else patched_sources(path, root)
     if src is None:
         return None
-    full = base_sources()
+    full = base_sources(snap)
     full.update(src)
     return full
 
@@ -129,23 +144,24 @@ def stored_sources(path):
 _BASELINE = {}
 
 
-def baseline(prop, tier="quick"):
-    """what the check of `prop` reports on the bare corpus snapshot: (exact keys, (rule, function, diagnosis) triples)"""
-    if prop not in _BASELINE:
+def baseline(prop, tier="quick", snapshot=None):
+    """what the check of `prop` reports on a bare corpus snapshot: (exact keys, (rule, function, diagnosis) triples)"""
+    snapshot = snapshot or CORPUS_COMMIT
+    if (prop, snapshot) not in _BASELINE:
         from .__main__ import analyse
         from .core import HOLDS
         try:
-            _mod, ctx = analyse(prop, "/repo", tier, sources=base_sources())
+            _mod, ctx = analyse(prop, "/repo", tier, sources=base_sources(snapshot))
             bad = [r for r in ctx.results if r.status != HOLDS]
         except Exception:
             bad = []
-        _BASELINE[prop] = ({r.key() for r in bad}, {(r.rule, r.func, r.msg[:50]) for r in bad})
-    return _BASELINE[prop]
+        _BASELINE[(prop, snapshot)] = ({r.key() for r in bad}, {(r.rule, r.func, r.msg[:50]) for r in bad})
+    return _BASELINE[(prop, snapshot)]
 
 
-def added(prop, results):
-    """the results a stored diff adds to what the bare snapshot already gives"""
-    exact, loose = baseline(prop)
+def added(prop, results, path=None):
+    """the results a stored diff adds to what its bare snapshot already gives"""
+    exact, loose = baseline(prop, snapshot=snapshot_of(path) if path else None)
     # the same clause on the same function with the same diagnosis (the construct quoted may be spelt differently after a refactor)
     return [r for r in results if r.key() not in exact and (r.rule, r.func, r.msg[:50]) not in loose]
 
